@@ -8,7 +8,8 @@ package storage
 // (and interrupt) log and page writes.
 //
 // Events: wal.len, wal.body, wal.sync, wal.synced (log append);
-// page.write, header.write (data file); page.dirty (a cached page is modified).
+// page.write, header.write (data file); page.dirty (a cached page is modified);
+// ddl.changes.done (CREATE TABLE has made its catalog changes, before its own flush).
 var VerifPoint func(ev string, off uint64)
 
 func verifPoint(ev string, off uint64) {
